@@ -856,6 +856,10 @@ class Exec:
         return True
 
     def field(s, obj, nm):
+        if isinstance(obj, ListIt):
+            if not (0 <= obj.i < len(obj.lst)):
+                raise Unsupported('dereference of an iterator outside its container')
+            obj = obj.lst[obj.i]
         if isinstance(obj, dict):
             if nm not in obj:
                 raise Unsupported('unknown member %s' % nm)
@@ -924,6 +928,9 @@ class Exec:
         if isinstance(a, str) or isinstance(b, str):
             if op == '==': return a == b
             if op == '!=': return a != b
+        if isinstance(a, ListIt) or isinstance(b, ListIt):
+            if op == '==': return a == b
+            if op == '!=': return not (a == b)
         if a is None or b is None or isinstance(a, (dict, list)) or isinstance(b, (dict, list)):
             if op == '==': return a is b
             if op == '!=': return a is not b
@@ -1333,7 +1340,9 @@ class Exec:
         op = s.callee_name(n['inner'][0])
         if op == 'operator<<':
             a0 = rval(s.expr(n['inner'][1]))
-            if a0 == 'ostream' or 'ostream' in n['type']['qualType'] or 'Logger' in n['type']['qualType']:
+            if (isinstance(a0, str) and a0 == 'ostream') or 'ostream' in n['type']['qualType'] or 'Logger' in n['type']['qualType']:
+                if 'ostream_write' in s.cb:
+                    s.cb['ostream_write'](rval(s.expr(n['inner'][2])))     # contract: the stream records what is written, in order
                 return 'ostream'
             raise Unsupported('operator<< on %r' % type(a0))
         args = [s.expr(a) for a in n['inner'][1:]]
